@@ -213,6 +213,16 @@ func (v Value) number() _number {
 	return num
 }
 
+// floatToWrappedInt64 converts a finite float64 to an int64 whose low 32 bits
+// are the value modulo 2**32 (ECMA 262: 9.5 - 9.7), including for values that
+// do not fit an int64, where a plain Go conversion is implementation-defined.
+func floatToWrappedInt64(value float64) int64 {
+	if value >= floatMaxInt64 || value <= floatMinInt64 {
+		value = math.Mod(value, 4294967296)
+	}
+	return int64(value)
+}
+
 // ECMA 262: 9.5.
 func toInt32(value Value) int32 {
 	switch value := value.value.(type) {
@@ -230,7 +240,7 @@ func toInt32(value Value) int32 {
 	}
 
 	// Convert to int64 before int32 to force correct wrapping.
-	return int32(int64(floatValue))
+	return int32(floatToWrappedInt64(floatValue))
 }
 
 func toUint32(value Value) uint32 {
@@ -253,7 +263,7 @@ func toUint32(value Value) uint32 {
 	}
 
 	// Convert to int64 before uint32 to force correct wrapping.
-	return uint32(int64(floatValue))
+	return uint32(floatToWrappedInt64(floatValue))
 }
 
 // ECMA 262 - 6.0 - 7.1.8.
@@ -273,7 +283,7 @@ func toUint16(value Value) uint16 {
 	}
 
 	// Convert to int64 before uint16 to force correct wrapping.
-	return uint16(int64(floatValue))
+	return uint16(floatToWrappedInt64(floatValue))
 }
 
 // toIntSign returns sign of a number converted to -1, 0 ,1.
